@@ -123,12 +123,12 @@ CLAIMED = {
          "MDev = operation through the transport or a protocol object around it, refused when the link is released; MEff = any other resource; MIo = other code) and closed_safe is decided "
          "per method by vm_compute; C19_closed_safe: closed_safe p = true implies every execution from (closed, released) ends in that state with nothing touched; C19_method_keeps_state; "
          "C19_method_outcomes. Tie: every RPC method of every class is called on the closed real instance (arguments synthesised from annotations): no transport call may get through, no "
-         "resource may be created, the observed outcome must be one the method's program allows.",
+         "resource may be created, the observed outcome must be one the method's program allows. The model's primitives LinkOpen/LinkClose are tied to the REAL link-establishment code of five concrete transports (QMI_TcpTransport, QMI_UdpTransport, QMI_SerialTransport, QMI_Vxi11Transport, QMI_PyUsbTmcTransport): their real open()/_open_transport()/close() run on recording fakes of socket.socket / create_connection / gethostbyname, serial.Serial, vxi11.Instrument and qmi.core.usbtmc.Instrument with a fault injected at every OS primitive call; after a failed open nothing it created is still open and the transport is marked closed, a successful open holds exactly one link, close (also a failing one) releases everything.",
     note="Trusted: Coq kernel+vm_compute; the ast translator (validated each run by the fault-injection correspondence and by the closed-method calls; base-class shapes re-checked); the fake transport (real QMI_Transport open/close/_check_is_open logic). "
-         "Assumed and checked where possible: transports refuse I/O when closed (C13's subject; surveyed in the evidence); the model's primitives are checked behaviourally against the real QMI_Instrument and QMI_Transport and every transport subclass on every run (all flag values, hook or resource failing or not); protocol objects reach the device only through their transport (AST-checked); None-able resource attributes are None when closed (checked on the real class after construction, open/close and every call). I/O statements are "
+         "NOT tied at link level: the pyvisa transports (QMI_VisaUsbTmcTransport, GPIB/VISA, Windows-only) and the USB layer inside qmi.core.usbtmc.Instrument. Six genuine socket leaks found by the link-level tie (TCP/UDP open failing other than by a connect timeout) were repaired by a fix: commit. Assumed and checked where possible: transports refuse I/O when closed (C13's subject; surveyed in the evidence); the model's primitives are checked behaviourally against the real QMI_Instrument and QMI_Transport and every transport subclass on every run (all flag values, hook or resource failing or not); protocol objects reach the device only through their transport (AST-checked); None-able resource attributes are None when closed (checked on the real class after construction, open/close and every call). I/O statements are "
          "abstracted as 'may raise, do not change flag or link'; single device link per instrument; the tclab retry loop is unrolled 3 times. 21 driver defects were found: 4 repaired by "
          "fix: commits, 17 recorded per class as open known findings.",
-    technique="effect-language translation + sound/complete abstract post analyser for open/close and a sound outcome/touch analyser (with loops) for RPC methods; per-class and per-method reflection; exhaustive fault-index injection; every RPC method called on the closed real class"),
+    technique="effect-language translation + sound/complete abstract post analyser for open/close and a sound outcome/touch analyser (with loops) for RPC methods; per-class and per-method reflection; exhaustive fault-index injection; every RPC method called on the closed real class; real link-establishment code on fake OS primitives with per-primitive fault injection"),
  "C01": dict(category="proof", design_ref="7 (C01)",
     text="Coq theorems on an executable transition system of the RPC call pipeline of one object (25 labels = atomic regions of rpc.py / messaging.py / context.py: issue, hand-off to the "
          "socket thread, wire, queue, worker pop/exec/reply/reject, pending table, removal, context stop, connection loss; any number of local and remote caller threads and calls; "
